@@ -20,20 +20,20 @@ Proof.
   unfold Rltb. destruct (Rlt_dec ((-0 - 2*R)/(2*1)) 0) as [_|E]; [field|exfalso; apply E; lra].
 Qed.
 
-Lemma path_length_at_centre xc yc zc R opd L M N :
+Lemma path_length_at_centre xc yc zc R opd ni L M N :
   L*L + M*M + N*N = 1 -> 0 < R ->
-  k_c06_path_length ROps xc yc zc R opd xc yc zc L M N = opd - R.
+  k_c06_path_length ROps xc yc zc R opd ni xc yc zc L M N = opd - Rabs ni * R.
 Proof. intros Hd HR. unfold k_c06_path_length. rewrite opd_image_to_xp_at_centre by assumption. reflexivity. Qed.
 
 (** no tilt term for the axial field point, nor for fields given as object heights *)
-Lemma correct_tilt_xy_axial opd x y ft mx my epd :
-  k_c06_correct_tilt_xy ROps opd x y ft 0 0 mx my epd = opd.
+Lemma correct_tilt_xy_axial opd x y ft mf vx vy epd no :
+  k_c06_correct_tilt_xy ROps opd x y ft 0 0 mf vx vy epd no = opd.
 Proof.
   unfold k_c06_correct_tilt_xy. rops. destruct (String.eqb ft "angle"); [|simpl; ring].
   rewrite !Rmult_0_r. unfold Rdiv. rewrite !Rmult_0_l, sin_0. ring.
 Qed.
-Lemma correct_tilt_axial opd ft mx my dx dy epd :
-  k_c06_correct_tilt ROps opd ft 0 0 mx my dx dy epd = opd.
+Lemma correct_tilt_axial opd ft mf vx vy dx dy epd no :
+  k_c06_correct_tilt ROps opd ft 0 0 mf vx vy dx dy epd no = opd.
 Proof.
   unfold k_c06_correct_tilt. rops. destruct (String.eqb ft "angle"); [|simpl; ring].
   rewrite !Rmult_0_r. unfold Rdiv. rewrite !Rmult_0_l, sin_0. ring.
@@ -148,7 +148,7 @@ Qed.
 
 (** non-vacuity: a two-ray pencil meeting at (0,0,50) with path 75, pupil at z = 0 *)
 Example wavefront_example :
-  let e := mkEnv (O:=ROps) 0 "angle"%string 0 0 0 0 10 (Rlit 55 (-2)) in
+  let e := mkEnv (O:=ROps) 0 "angle"%string 0 0 0 0 0 10 1 1 (Rlit 55 (-2)) in
   let r := mkRec (O:=ROps) 0 0 50 0 0 1 1 75 in
   wavefront_data e r [(0, 1, r); (1, 0, r)] = Some [(0, 1); (0, 1)].
 Proof.
